@@ -2,6 +2,7 @@
 package registry
 
 import (
+	"verif/props/c08"
 	"verif/props/c10"
 	"verif/props/c11"
 	"verif/sim/core"
@@ -9,6 +10,8 @@ import (
 
 func Get(id string) core.Property {
 	switch id {
+	case "C08":
+		return c08.New()
 	case "C10":
 		return c10.New()
 	case "C11":
